@@ -55,7 +55,7 @@ checks = [
   TRUST),
  ("C07", "exhaustive enumeration of (receiver class x configured method x argument tuple) calls, each analysed by the real code and judged by a three-valued reference acceptance model read from the same JSON",
   "Every configured instance method name (plus undeclared names) on 9 literal receivers x every argument tuple of length 0..2 (quick) / 0..3 (thorough) over 7 literal kinds and 3 union-typed variables, one call per program: whenever the reference model says 'certainly fails' (undeclared for the class and its ancestors, count outside every overload, an argument whose every class is rejected by every overload) a diagnostic must be on the call's row.",
-  TRUST + " The reference model answers only on its certain domain (keyword parameters, block methods, mixed default unions, typed-array elements, Integer-for-Float, Unify-style parameters are 'unknown'). Generated configurations are not yet covered by this check (shipped core configuration only)."),
+  TRUST + " The reference model answers only on its certain domain (keyword parameters, block methods, mixed default unions, typed-array elements, Integer-for-Float, Unify-style parameters are 'unknown'). Configurations: the shipped core files, a generated base/subclass pair with an override in both file orders, and a generated class covering every parameter-spec tuple over 11 parameter notations up to length 2 (thorough 3)."),
  ("C08", "same enumeration as C07, restricted to calls the reference acceptance model certainly accepts",
   "For every call of the C07 space that certainly fits a declaration (declared or inherited, count accepted, every class of every argument - including union-typed arguments - accepted) there must be no diagnostic on the call's row.",
   TRUST + " Same reference-model domain as C07."),
